@@ -304,6 +304,14 @@ pub fn generate(seed: u64) -> C05Scn {
         };
         runs.push(Run { now: t, time, env: env.clone(), io: gen_io(&mut rng), via_stdin: rng.chance(1, 2), offset_override: None });
     }
+    // now and then the last run happens centuries later (the removed set must still only grow)
+    if rng.chance(1, 8) {
+        let last = runs.last().unwrap().now.0;
+        let far = *rng.pick(&[last + 86_400 * 365 * 293, last + 86_400 * 365 * 1_000, 253_402_300_799 - 86_400 * 400]);
+        if far > last && far < 253_402_300_799 - 86_400 * 2 {
+            runs.push(Run { now: (far, 0), time: RunTime::Clock { tick_ns: 0 }, env: env.clone(), io: IoPlan::default(), via_stdin: true, offset_override: None });
+        }
+    }
     // a quarter of the histories are library sessions; there (and sometimes between CLI runs)
     // the configured offset changes from call to call
     let session = rng.chance(1, 4);
